@@ -1,8 +1,13 @@
 """C12 cross-process monitor: several OS processes (fresh hash seeds, fresh address space) must
 produce the same canonical transcript for every case of the same seed."""
-import os, subprocess, json
+import os, subprocess, json, sys
+sys.path.insert(0, os.path.dirname(os.path.abspath(__file__)))
+import sanitize
 
 def post(prop, tier, seed, total, run_dir, binary):
+    if tier == "thorough":
+        # the threaded part under ThreadSanitizer (std rebuilt with -Zbuild-std, C instrumented)
+        sanitize.run_variant("tsan", prop, tier, seed, total, run_dir, 8, 80, timeout=2400)
     cases = 250 if tier == "quick" else 4000
     nproc = 8
     procs = [subprocess.Popen([binary, "c12-transcript", str(seed), str(cases)], stdout=subprocess.PIPE, stderr=subprocess.DEVNULL, text=True) for _ in range(nproc)]
